@@ -765,7 +765,7 @@ class TransferFunction(LTI):
         if not type(other) == int:
             raise ValueError("Exponent must be an integer")
         if other == 0:
-            return TransferFunction([1], [1])  # unity
+            return TransferFunction([1], [1], self.dt)  # unity
         if other > 0:
             return self * (self**(other - 1))
         if other < 0:
